@@ -25,6 +25,7 @@ def gen(run):
     maxl = 3 if run.tier == "quick" else 4
     ex = [pl.case(P, c, OPS) for c in pl.files(alpha, maxl)]
     small = [pl.case(pl.P_PLAIN, c, OPS) for c in pl.files(pl.alphabet18(pl.P_PLAIN), 2)]
+    small += [pl.case(P, c, OPS) for c in pl.files(pl.near_miss() + alpha[:6], 2)]        # near misses of the search needle
     nr = 300 if run.tier == "quick" else 5000
     rnd = [pl.case(P, c, OPS) for c in pl.random_files(run.rng, P, nr, alpha)]
     rnd += [pl.case(P, c, "".join(run.rng.choice("eds") for _ in range(run.rng.randrange(2, 7)))) for c in pl.random_files(run.rng, P, nr // 3, alpha)]
